@@ -215,8 +215,30 @@ def check_worklist(idx: Index, rep: Report) -> None:
     rets = [n for n in walk_local(f.node) if isinstance(n, ast.Return)]
     loops = [n for n in walk_local(f.node) if isinstance(n, ast.While)]
     def loop_ok(w: ast.While) -> bool:
-        t = unparse(w.test)
-        return "self._stack[-1] is _MISSING" in t and "self._stack" in t.split(" and ")[0] and bool(_method_calls(w, "_stack", "pop")) and all(not c.args or unparse(c.args[0]) == "-1" for c in _method_calls(w, "_stack", "pop"))
+        """A loop that pops from _stack exactly while the stack is non-empty and its last entry is the tombstone."""
+        pops = _method_calls(w, "_stack", "pop")
+        if not pops or not all(not c.args or unparse(c.args[0]) == "-1" for c in pops):
+            return False
+        TOMB_T = {"self._stack[-1] is _MISSING", "self._stack[-1] == _MISSING"}
+        TOMB_F = {"self._stack[-1] is not _MISSING", "self._stack[-1] != _MISSING"}
+        NONEMPTY_T = {"self._stack", "len(self._stack) > 0", "len(self._stack) != 0", "bool(self._stack)"}
+
+        def facts_txt(node):
+            return [(unparse(t_), p_) for t_, p_ in guard_facts(f.node, node)]
+
+        for c in pops:
+            fs = facts_txt(c)
+            if not (any((t_ in TOMB_T and p_) or (t_ in TOMB_F and not p_) for t_, p_ in fs) and any(t_ in NONEMPTY_T and p_ for t_, p_ in fs)):
+                return False
+        # every early exit (break / return) of the loop happens because the last entry is a real item
+        for ex in [n_ for n_ in walk_local(w) if isinstance(n_, (ast.Break, ast.Return)) and n_ is not w]:
+            fs = facts_txt(ex)
+            if not any((t_ in TOMB_F and p_) or (t_ in TOMB_T and not p_) for t_, p_ in fs):
+                return False
+        # no other mutation of the stack inside the loop
+        if _subscript_stores(w, "_stack") or _method_calls(w, "_stack", "append"):
+            return False
+        return True
     good_loops = [w for w in loops if loop_ok(w)]
     for ret in rets:
         rt = unparse(ret.value) if ret.value else "None"
@@ -250,7 +272,13 @@ def check_worklist(idx: Index, rep: Report) -> None:
             for c in calls_in(fi.node):
                 if isinstance(c.func, ast.Attribute) and attr_chain(c.func.value) in ("self._stack", "self._map") and c.func.attr in ("append", "pop", "clear", "insert", "extend", "remove", "update", "setdefault", "popitem", "reverse", "sort"):
                     writes = True
-            if writes and name not in allowed:
+            helper_of_primitives = name.startswith("_") and not name.startswith("__") and all(
+                caller in allowed or not any(isinstance(c_.func, ast.Attribute) and c_.func.attr == name and unparse(c_.func.value) in ("self", "Worklist") for c_ in calls_in(d_.raw_node, local=False))
+                for caller, defs_ in cls.methods.items() for d_ in defs_
+            )
+            if writes and name not in allowed and helper_of_primitives:
+                r3c.ok(fi.fq, f"{fi.loc} private helper called only from the checked primitives (analysed inlined there)")
+            elif writes and name not in allowed:
                 r3c.fail(fi.fq, Finding("C12.R3c", fi.fq, "foreign-writer", f"method {name} mutates the worklist representation outside the checked primitives", fi.loc))
             elif writes:
                 r3c.ok(fi.fq)
@@ -420,11 +448,9 @@ def check_disjoint_set(idx: Index, rep: Report) -> None:
         p = params_of(f.node)
         calls = [c for c in calls_in(f.node) if isinstance(c.func, ast.Attribute) and attr_chain(c.func.value) == "self._base"]
         rets = [n for n in walk_local(f.node) if isinstance(n, ast.Return)]
-        ok = (
-            len(calls) == 1 and calls[0].func.attr == meth and len(calls[0].args) == 2  # type: ignore[attr-defined]
-            and [unparse(a) for a in calls[0].args] == [f"self._index_by_value[{p[1]}]", f"self._index_by_value[{p[2]}]"]
-            and len(rets) == 1 and rets[0].value is calls[0]
-        )
+        cfg6 = CFG(f.node)
+        ret_txt = [resolved_text(cfg6, rt.value, cfg6.node_of(rt)) for rt in rets if rt.value is not None]
+        ok = len(calls) == 1 and ret_txt == [f"self._base.{meth}(self._index_by_value[{p[1]}], self._index_by_value[{p[2]}])"]
         if ok:
             r6.ok(f.fq)
         else:
@@ -510,30 +536,41 @@ def check_scoped_dict(idx: Index, rep: Report) -> None:
                 has_sentinel_default = len(c.args) >= 2 and not (isinstance(c.args[1], ast.Constant) and c.args[1].value is None)
                 if not has_sentinel_default:
                     bad.append(("none-as-absent", f"presence in a scope is decided by `{unparse(c)}` being None: a key bound to None is treated as absent, unlike the `in` test used by the other lookup forms"))
-        local_tests = [m for m in membership if (attr_chain(m.comparators[0]) or "").endswith("_local_scope")]
-        delegating = [m for m in membership if attr_chain(m.comparators[0]) in ("self", "self.parent")]
+        cfg7 = CFG(f.node)
+
+        def scope_txt(e: ast.AST, at: ast.AST) -> str:
+            """what the scope expression denotes (local aliases such as `bindings = scope._local_scope` resolved)"""
+            try:
+                return resolved_text(cfg7, e, cfg7.node_of(at))
+            except AnalysisError:
+                return unparse(e)
+
+        local_tests = [m for m in membership if scope_txt(m.comparators[0], m).endswith("_local_scope")]
+        delegating = [m for m in membership if scope_txt(m.comparators[0], m) in ("self", "self.parent")]
         if not local_tests and not bad:
             if not delegating and not any(isinstance(n, ast.Subscript) and attr_chain(n.value) == "self" for n in walk_local(f.node)):
                 bad.append(("no-presence-test", "no `key in <scope>` test and no delegation to another lookup form"))
         # innermost first: the first membership test (in source order) must be on self._local_scope (or an alias of self)
         if local_tests:
             first = min(local_tests, key=lambda n: (n.lineno, n.col_offset))
-            base = attr_chain(first.comparators[0])
-            cfg = CFG(f.node)
+            base = scope_txt(first.comparators[0], first)
+            cfg = cfg7
             owner = base.rsplit(".", 1)[0]  # type: ignore[union-attr]
             if owner != "self":
                 rd = reaching_defs(cfg, owner, cfg.node_of(first))
-                if not (len(rd) == 1 and rd[0][1] is not None and unparse(rd[0][1]) == "self"):
+                vals = {unparse(v) if v is not None else "?" for _, v in rd}
+                # a walk up the chain: starts at self and only advances with `.parent`
+                if not ("self" in vals and vals <= {"self", f"{owner}.parent"}):
                     bad.append(("innermost-first", f"the first scope consulted is `{owner}`, which is not the innermost scope"))
             # the value returned under a membership guard comes from the scope that was tested
             for ret in [n for n in walk_local(f.node) if isinstance(n, ast.Return)]:
-                if isinstance(ret.value, ast.Subscript) and (attr_chain(ret.value.value) or "").endswith("_local_scope"):
-                    facts = [t for t, pol in guard_facts(f.node, ret) if pol and isinstance(t, ast.Compare) and isinstance(t.ops[0], ast.In)]
+                if isinstance(ret.value, ast.Subscript) and scope_txt(ret.value.value, ret).endswith("_local_scope"):
+                    facts = [t for t, pol in guard_facts(f.node, ret) if isinstance(t, ast.Compare) and len(t.ops) == 1 and ((pol and isinstance(t.ops[0], ast.In)) or ((not pol) and isinstance(t.ops[0], ast.NotIn))) and unparse(t.left) == key]
                     if not facts:
                         bad.append(("unguarded-read", f"`{unparse(ret)}` is not guarded by a membership test"))
                         continue
-                    tested = attr_chain(facts[-1].comparators[0]).rsplit(".", 1)[0]  # type: ignore[union-attr]
-                    read = attr_chain(ret.value.value).rsplit(".", 1)[0]  # type: ignore[union-attr]
+                    tested = scope_txt(facts[-1].comparators[0], facts[-1]).rsplit(".", 1)[0]
+                    read = scope_txt(ret.value.value, ret).rsplit(".", 1)[0]
                     if tested != read:
                         nr = cfg.node_of(ret)
                         alias = lambda nm: nm == "self" or (len(reaching_defs(cfg, nm, nr)) == 1 and reaching_defs(cfg, nm, nr)[0][1] is not None and unparse(reaching_defs(cfg, nm, nr)[0][1]) == "self")
